@@ -82,6 +82,8 @@ Apply(c, d) ==
                                                   [] d.x = "low" -> c.limit - Unit [] d.x = "odd" -> c.limit + 1
                                                   [] d.x = "beyond" -> c.size + Unit [] d.x = "huge" -> Huge
                                                   \* space reserved above the last record (a writer that died before linking): still well-formed
+                                                  \* the exact, unrounded end of the last record (a writer that does not round): well-formed
+                                                  [] d.x = "exact" -> c.recs[Len(c.recs)].off + RecHdr + c.recs[Len(c.recs)].nlen
                                                   [] d.x = "reserved" -> (IF c.limit = 0 THEN Up(FirstRec(c.h0), Unit) ELSE c.limit) + 2 * Unit]
       [] d.t = "next"   -> [c EXCEPT !.recs[d.i].next = Target(c, d.i, d.x)]
       [] d.t = "head"   -> [c EXCEPT !.heads[HeadIdx(c, d.i)].off = Target(c, d.i, d.x)]
@@ -106,9 +108,10 @@ ExpOf(c) == LET f == Expand(c)  e == ParseResult(f) IN
             ELSE [kind |-> "ok", meta |-> e.meta, counts |-> {<<c.recs[i].n, c.recs[i].val>> : i \in {i \in DOMAIN c.recs : HasRec(f, c.recs[i].off) /\ RecAt(f, c.recs[i].off) \in Linked(f)}}]
 NameVecs == {[name |-> n, dec |-> DecodeName(NameOf(n)), scope |-> NameInScope(NameOf(n)), ditto |-> HasDitto(NameOf(n))] : n \in DOMAIN NameCat}
 
-Init == \/ /\ vec \in Sound \cup Damaged \cup Damaged2
-           /\ cls = ClassOf(Expand(vec))
-           /\ exp = ExpOf(vec)
+Judged == cls = ClassOf(Expand(vec)) /\ exp = ExpOf(vec)
+Init == \/ vec \in Sound /\ Judged                \* (disjuncts: TLC enumerates each family once)
+        \/ vec \in Damaged /\ Judged
+        \/ vec \in Damaged2 /\ Judged
         \/ /\ vec \in NameVecs
            /\ cls = "name" /\ exp = [kind |-> "name", meta |-> {}, counts |-> {}]
 Next == UNCHANGED <<vec, cls, exp>>
